@@ -84,7 +84,7 @@ theorem C09_net (h1 h2 : Bytes) (ifs : List Iface) (wf : NetWF netCfg.nameWs h1 
     | false =>
       simp only [frontEnd, List.isEmpty_cons, List.map_cons, Bool.false_eq_true, if_false,
         List.map_map, Function.comp_def]
-      have hs := sumCols_tuple8 i r
+      have hs := aggregate_tuple8 i r
       simp only [List.map_cons] at hs
       rw [hs]
       simp only [expectNet, List.isEmpty_cons, Bool.false_eq_true, if_false, Expect.toOut]
@@ -127,9 +127,12 @@ theorem C09_net_find_counterexample (i : Iface) (h : i.name = [97, 58, 98]) :
   simp only [Bool.false_eq_true, if_false, hfind]
   have hdrop : (renderNetLine i).drop (3 + 1 + 1) = [98, 58] ++ renderCells i.cells := by
     rw [hline]; rfl
-  simp only [hdrop, hsplit, ints]
-  have : parseDec? [98, 58] = none := by decide
-  simp [this]
+  have huni : hasUniSpace ([98, 58] ++ renderCells i.cells) = false := by
+    rw [hasUniSpace_append_left [98, 58] _ (by decide)]
+    exact hasUniSpace_of_odd_free _ (fun c hc => odd_not_mem_renderCells c _ hc)
+  simp only [hdrop, huni, Bool.false_eq_true, if_false, hsplit, ints]
+  have : intTok [98, 58] = .err .valueError := by rfl
+  simp [this, Res.bind]
 
 /-! ### every name the kernel accepts (lead: control characters / Unicode spaces at the ends) -/
 
@@ -241,19 +244,20 @@ theorem C09_disk_roundtrip_15 (maj min : Nat) (name : Bytes) (p : Bool) (s : Io1
 
 /-- every other number of fields (0–6, 8–13, 16, 17) is no layout: ValueError, whatever the
     fields contain -/
-theorem C09_disk_unknown_layout_ValueError (line : Bytes)
+theorem C09_disk_unknown_layout_ValueError (line : Bytes) (hu : hasUniSpace line = false)
     (h : layoutKnown (splitP isWsT line).length = false) :
     diskLine diskCfg line = .err .valueError := by
   unfold diskLine diskFields
-  rw [branch_unknown _ h]
+  rw [hu, branch_unknown _ h]
+  rfl
 
 /-- … and one such line anywhere makes the whole call raise it -/
 theorem C09_disk_unknown_layout_propagates (storage : Bytes → Bool) (perdisk : Bool)
     (pre : List Dev) (hpre : ∀ d ∈ pre, WFDisk d.name ∧ WFRec d.stat) (line : Bytes) (rest : List Bytes)
-    (h : layoutKnown (splitP isWsT line).length = false) (d : Dict) :
+    (hu : hasUniSpace line = false) (h : layoutKnown (splitP isWsT line).length = false) (d : Dict) :
     diskFold diskCfg storage perdisk d (pre.map renderDiskLine ++ line :: rest) = .err .valueError := by
   induction pre generalizing d with
-  | nil => simp [diskFold, C09_disk_unknown_layout_ValueError line h]
+  | nil => simp [diskFold, C09_disk_unknown_layout_ValueError line hu h]
   | cons x r ih =>
     have hx := hpre x (by simp)
     simp only [List.map_cons, List.cons_append, diskFold, diskLine_render x hx.1 hx.2]
@@ -286,7 +290,7 @@ theorem C09_disk (devs : List Dev) (wf : DiskWF devs) (perdisk : Bool) :
     | cons d r =>
       simp only [frontEnd, List.map_cons, List.isEmpty_cons, Bool.false_eq_true, if_false,
         List.map_map, Function.comp_def, Expect.toOut]
-      have hs := sumCols_vals9 d r
+      have hs := aggregate_vals9 d r
       simp only [List.map_cons] at hs
       rw [hs]
       have hf := sumFields_documented9 (d :: r)
@@ -380,7 +384,7 @@ example : DiskWF [⟨8, 0, [115, 100, 97], false, .full ⟨1, 2, 3, 4, 5, 6, 7, 
   refine ⟨?_, ?_, by decide, by decide⟩
   · intro d hd
     simp at hd
-    rcases hd with rfl | rfl | rfl <;> exact ⟨by decide, by simp [NoP, isWsT, isWs]⟩
+    rcases hd with rfl | rfl | rfl <;> exact ⟨by decide, by simp [NoP, isWsT, isWs], by rfl⟩
   · intro d hd
     simp at hd
     rcases hd with rfl | rfl | rfl <;> simp [WFRec]
